@@ -475,6 +475,12 @@ func (x *hW) checkQuery(flt Filter, f int, t Entity) {
 		if r := hRelOf(x.set[idx]); r >= 0 {
 			vAssert(q.Relation(x.id[r]) == x.tgt[idx], "query Relation is the current target")
 		}
+		qids := q.Ids()
+		qm := q.Mask()
+		vAssert(len(qids) == qm.TotalBitsSet(), "query Ids lists exactly the components of the entity")
+		for _, id := range qids {
+			vAssert(qm.Get(id), "query Ids lists only components of the entity")
+		}
 		visited++
 	}
 	vAssert(!w.IsLocked() || x.locks > 0, "exhausted query releases its lock")
@@ -643,5 +649,57 @@ func (x *hW) invRowsZero(a *archetype, from uint32) {
 			zero = vAnd(zero, *(*byte)(unsafe.Add(base, k)) == 0)
 		}
 		vAssert(zero, "INV: storage beyond the table length is zero")
+	}
+}
+
+// checkStats compares World.Stats() (first call: Stats, later calls: UpdateStats)
+// with the tables: per node the active/total table counts, per table activity and size.
+func (x *hW) checkStats() {
+	w := x.w
+	st := w.Stats()
+	vAssert(st.Entities.Used == x.aliveCount(), "Stats().Entities.Used = alive entities")
+	nn := w.nodes.Len()
+	vAssert(len(st.Nodes) == int(nn), "Stats().Nodes lists every node")
+	size := 0
+	for ni := int32(0); ni < nn; ni++ {
+		nd := w.nodes.Get(ni)
+		ns := &st.Nodes[ni]
+		if !nd.IsActive {
+			continue
+		}
+		arches := nd.Archetypes()
+		na := arches.Len()
+		active := 0
+		vAssert(len(ns.Archetypes) == int(na), "Stats().Nodes[i].Archetypes lists every table")
+		for ai := int32(0); ai < na; ai++ {
+			a := arches.Get(ai)
+			if a.IsActive() {
+				active++
+			}
+			vAssert(ns.Archetypes[ai].IsActive == a.IsActive(), "Stats(): table activity")
+			vAssert(ns.Archetypes[ai].Size == int(a.len), "Stats(): table size")
+		}
+		vAssert(ns.ArchetypeCount == int(na) && ns.ActiveArchetypeCount == active, "Stats().Nodes[i].ActiveArchetypeCount = tables currently in use")
+		size += ns.Size
+	}
+	vAssert(size == x.aliveCount(), "Stats(): node sizes add up to the alive entities")
+}
+
+// checkUncheckedAPI: the *Unchecked access paths agree with the checked ones for alive entities.
+func (x *hW) checkUncheckedAPI() {
+	w := &x.w
+	for i := 0; i < x.n; i++ {
+		if !x.alive[i] {
+			continue
+		}
+		e := x.h[i]
+		for k := 0; k < x.nu; k++ {
+			has := x.set[i]&(1<<k) != 0
+			vAssert(w.HasUnchecked(e, x.id[k]) == has, "HasUnchecked agrees with the history")
+			vAssert(w.GetUnchecked(e, x.id[k]) == w.Get(e, x.id[k]), "GetUnchecked returns the same pointer as Get")
+		}
+		if r := hRelOf(x.set[i]); r >= 0 {
+			vAssert(w.Relations().GetUnchecked(e, x.id[r]) == x.tgt[i], "Relations.GetUnchecked is the last assigned target")
+		}
 	}
 }
